@@ -17,7 +17,7 @@ import (
 func TestMain(m *testing.M) {
 	vcore.Init("C01", "fault_enumeration",
 		"rapid-generated histories (<= 14 messages; Association Setup incl. re-association, Establishment, Modification with Create/Update/Remove/Query of PDR/FAR/QER/URR/BAR over id pools of 2-3, Deletion, "+
-			"usage reports answered with SEID 0 or normally, requests to dead SEIDs) run against the real PfcpServer with a model data plane; each history is executed fault-free and then once per position of a create/update/query call "+
+			"usage reports answered with SEID 0 or normally, requests to dead SEIDs; one history in four starts with a session holding a FAR, a QER, a URR, a BAR and a PDR with one and the same number, removes one of them, updates the others and ends the session) run against the real PfcpServer with a model data plane; each history is executed fault-free and then once per position of a create/update/query call "+
 			"in its data-plane call stream, in both fail-before-apply and fail-after-apply mode (thorough: plus random double/triple fault sets). Invariants after every message: every rule in the data plane belongs to a live session and was "+
 			"requested by a not-yet-removed Create IE; update/remove/query only for ids ever requested by the addressed live session; an ended session leaves nothing behind; final clean-up empties the data plane. "+
 			"non-trivial = (a fault was injected and a session ended afterwards) or (an update/remove/query of a never-created or already-removed id) or (re-association / SEID-0 end of a session holding >= 1 rule); distinct by (history, fault set)",
@@ -60,6 +60,36 @@ func genHistory(t *rapid.T) []stack.Op {
 			nsess++
 		}
 		ops = append(ops, stack.Op{Kind: "report", Sess: 1, URRs: []uint32{1}, Trig: 2}, stack.Op{Kind: "rsp", Peer: -2, Sess: 1, SEID0: true})
+	}
+	// second scripted core (one history in four): rule ids are small per-type numbers, so a FAR, a QER, a URR, a BAR and a PDR
+	// with one and the same number live side by side in a session; one of them is removed (and the others updated), later
+	// the session ends - every rule of every type must be withdrawn, none under another type's id
+	if rapid.IntRange(0, 3).Draw(t, "core2") == 0 {
+		id := uint32(rapid.IntRange(1, 2).Draw(t, "same_id"))
+		rules := []stack.RuleOp{
+			{Verb: "create", Kind: "FAR", ID: id, Action: 2, HasAction: true}, {Verb: "create", Kind: "QER", ID: id, QFI: 5},
+			{Verb: "create", Kind: "URR", ID: id, Method: 2, Trig: 2}, {Verb: "create", Kind: "BAR", ID: id},
+			{Verb: "create", Kind: "PDR", ID: id, Prec: 1, FAR: id, QERs: []uint32{id}, URRs: []uint32{id}},
+		}
+		ops = append(ops, stack.Op{Kind: "est", Peer: 0, Node: 0, Sess: -1, CP: 0x3100, Rules: rules})
+		mine := nsess
+		sessNode = append(sessNode, 0)
+		nsess++
+		gone := rapid.SampledFrom([]string{"QER", "FAR", "URR", "BAR", "PDR"}).Draw(t, "removed_kind")
+		ops = append(ops, stack.Op{Kind: "mod", Peer: -2, Sess: mine, Rules: []stack.RuleOp{{Verb: "remove", Kind: gone, ID: id}}})
+		var upd []stack.RuleOp
+		for _, ru := range rules {
+			if ru.Kind != gone && ru.Kind != "BAR" && rapid.Bool().Draw(t, "update_other") {
+				ru.Verb = "update"
+				upd = append(upd, ru)
+			}
+		}
+		if len(upd) > 0 {
+			ops = append(ops, stack.Op{Kind: "mod", Peer: -2, Sess: mine, Rules: upd})
+		}
+		if rapid.Bool().Draw(t, "end_now") {
+			ops = append(ops, stack.Op{Kind: "del", Peer: -2, Sess: mine})
+		}
 	}
 	for i := 0; i < n; i++ {
 		k := rapid.SampledFrom([]string{"assoc", "est", "est", "est", "mod", "mod", "mod", "mod", "mod", "modnode", "del", "report", "rsp0", "rsp", "moddead"}).Draw(t, "op")
